@@ -238,6 +238,7 @@ CHECKS = {
         "level": "exploration",
         "technique": "stateful property-based testing (rapid state machine) over publish / store / verify on a small key space, with an independent crypto/ecdsa + crypto/rsa verifier as reference oracle and single-field tampering of valid records",
         "tests": [T("TestC15", 400, 2000, qshards=2, steps=40)],
+        "plain_tests": ["TestRegressC15"],
         "rule": "cases = rapid state machine (avg 40 steps) over MsgPublishReferencePayloadLink, MsgStoreSignature and the VerifySignature query on 4 addresses (incl. empty) x 4 reference ids (incl. malformed) x 4 links (incl. empty), signatures made with a committed pool of ECDSA P-256 and RSA-2048 keys with self-signed certificates; each stored record is either valid or tampered in exactly one field (signature byte, algorithm swapped, foreign certificate, unsupported algorithm, non-base64 signature, garbage certificate); overwriting of stored signatures and re-publishing of links is frequent. "
                 "Oracle: the raw store value of every published link key never changes and a second publish errors; VerifySignature reports valid iff an independent verification of the stored signature under the stored certificate and algorithm over sha256hex(address:referenceId:storedLink) succeeds, a valid response returns signature / algorithm / certificate / timestamp of the stored object unchanged, and after every valid verification the same query with any other address or reference id must agree with the independent verdict. Non-trivial = a valid record was verified and mutations or re-publishes were checked. Distinct = SHA-256 of the history.",
         "min_nontrivial_fraction": 0.2,
